@@ -228,18 +228,36 @@ def quotedStar (p : Parsed) : Bool :=
       | .other => false
   | _ => false
 
+/-- Exact messages of executor panics that belong to open findings of the grouping operators. -/
+def groupKeySig (sig : String) : Bool :=
+  containsSub sig "U8 does not have a corresponding BasicType"
+  || containsSub sig "NullableU8 does not have a corresponding fused nullable type"
+  || containsSub sig "select.rs: index out of bounds"
+  || containsSub sig "constant to non-constant conversion not supported"
+  || containsSub sig "val_rows_pack.rs: index out of bounds"
+
+def hasAgg : Expr → Bool
+  | .agg _ _ => true
+  | .f1 _ e => hasAgg e
+  | .f2 _ a b => hasAgg a || hasAgg b
+  | _ => false
+
+/-- The statement groups by a computed key: it aggregates, and some select item without aggregate is a
+    comparison / boolean expression or references no column at all. -/
+def groupsByComputedKey (q : Query) : Bool :=
+  q.select.any (fun ci => hasAgg ci.expr)
+  && q.select.any (fun ci => !hasAgg ci.expr && (isBoolExpr ci.expr || !ci.expr.hasColumn))
+
 def classify (p : Parsed) (columns : List String) (verdict sig : String) : String :=
+  let _ := columns
   if verdict = "OK" then "" else
   match parseQuery p with
   | .ok q =>
       let lost := verdict = "BAD lost-answer" || verdict = "BAD hang"
-      if lost && containsSub sig "to_mixed" && q.select.any (fun ci => isBoolExpr ci.expr && ci.expr.hasColumn) then
-        "merge-bool-projection-to-val"
-      else if lost && containsSub sig "lub not implemented for I64 and U8"
+      if lost && groupKeySig sig && groupsByComputedKey q then "groupby-computed-key"
+      else if lost && containsSub sig "select.rs: index out of bounds"
           && (q.orderBy.filter fun ob => keepsOrderKey ob.1).any (fun ob => isBoolExpr ob.1) then
-        "C05-orderby-bool-key-mixed-nullability"
-      else if lost && containsSub sig "columns[" && (columnsOf q.filter).any (fun c => !columns.contains c) then
-        "where-null-partition-empty"
+        "orderby-isnull-key-select-oob"
       else if verdict = "BAD column-count" && quotedStar p then
         "C12-quoted-star-is-wildcard"
       else ""
@@ -248,9 +266,8 @@ def classify (p : Parsed) (columns : List String) (verdict sig : String) : Strin
 /-- The mutation stream has no syntax tree: there the exact panic message alone decides. -/
 def classifyMut (verdict sig : String) : String :=
   if !(verdict = "BAD lost-answer" || verdict = "BAD hang") then ""
-  else if containsSub sig "Vec<U8>.to_mixed" then "merge-bool-projection-to-val"
-  else if containsSub sig "lub not implemented for I64 and U8" then "C05-orderby-bool-key-mixed-nullability"
-  else if containsSub sig "columns[" then "where-null-partition-empty"
+  else if containsSub sig "select.rs: index out of bounds: the len is 3 but the index is 3" then "orderby-isnull-key-select-oob"
+  else if groupKeySig sig then "groupby-computed-key"
   else ""
 
 /-! ### Lines -/
